@@ -362,6 +362,9 @@ func expectC17(sc *Scenario) c17Expect {
 
 // checkC17 evaluates confinement, conflict detection and all-or-nothing over
 // the sandbox snapshots.
+// emptyHash is what world.Snapshot records for a file of zero bytes.
+const emptyHash = "e3b0c44298fc1c14"
+
 func checkC17(res *world.Result, s *simrt.Sim, sc *Scenario, logs []*PlugLog, host *hostResult, env *Env, before, after map[string]string) {
 	if sc == nil {
 		return
@@ -414,6 +417,27 @@ func checkC17(res *world.Result, s *simrt.Sim, sc *Scenario, logs []*PlugLog, ho
 		if host.Err != nil && len(outChanged) > 0 {
 			res.Failf("C17/all-or-nothing", "host failed (%s; expected because %s) but the output directory changed: %s",
 				hostErr, strings.Join(reasons, "; "), strings.Join(outChanged, " "))
+		}
+	}
+	if sc.APICrossParent && len(reasons) == 0 && host.Err != nil && len(outChanged) > 0 {
+		// whether the built-in generator fails on this program is not for this check to say,
+		// but a failed run (no plugin fails only at goodbye here) must leave nothing behind
+		late := false
+		for _, ps := range sc.Plugins {
+			if ps.Fails() {
+				late = true
+			}
+		}
+		if !late {
+			res.Failf("C17/all-or-nothing", "host failed (%s) but the output directory changed: %s", hostErr, strings.Join(outChanged, " "))
+		}
+	}
+	// A source whose file comes out empty did not produce it: nothing may be written then.
+	if host.Err == nil {
+		for _, d := range outChanged {
+			if p := d[1:]; d[0] != '-' && strings.HasSuffix(p, ".go") && after[p] == emptyHash {
+				res.Failf("C17/all-or-nothing", "the run succeeded and wrote files although one source produced nothing: %s is empty", p)
+			}
 		}
 	}
 	// Success: exactly the union of core and plugin files appears.
